@@ -177,7 +177,10 @@ def cost_estimate(mesh, kw, cache):
                       sum(len(x) ** 2 for x in nb))
     c3, c1, c2 = cache[key]
     if not kw['moment_matrix']:
-        return 0.3 + (1.2e-3 * c1 + 1.2e-4 * c2) * (1.5 if kw['consider_volume'] else 1.0)
+        f = 1.0
+        if kw['consider_volume']:
+            f = 8.0 if (kw['mode'] == 'nodal' and not kw['use_effective_volume']) else 1.5
+        return 0.3 + (1.2e-3 * c1 + 1.2e-4 * c2) * f
     f = 1.0
     if kw['consider_volume']:
         f = 4.0 if (kw['mode'] == 'nodal' and not kw['use_effective_volume']) else 2.0
@@ -195,7 +198,7 @@ def plan(ctx):
     rng = ctx.rng
     quick = ctx.tier == 'quick'
     n_mesh = 28 if quick else 120
-    n_rounds = 5 if quick else 24            # rounds over the 30 option combinations
+    n_rounds = 4 if quick else 24            # rounds over the 30 option combinations
     per_case_cap = 12.0 if quick else 60.0
     meshes, cases = {}, []
     combos = all_kw()
@@ -210,7 +213,7 @@ def plan(ctx):
         order = rng.choice(['shuffled', 'shuffled', 'sorted', 'reversed', 'ends_fixed', 'swap2', 'move1'])
         elem_order = rng.choice(['shuffled', 'sorted', 'reversed', 'ends_fixed', 'swap2', 'move1'])
         holes = 0.3 if (k % 5 == 3 and min(dims) >= 2 and max(dims) >= 3) else 0.0
-        mesh = G.gen_mesh(rng, et, dims, spacing_max=rng.choice([2, 2, 3, 6]), jitter=jitter, map_name=mp,
+        mesh = G.gen_mesh(rng, et, dims, spacing_max=rng.choice([2, 2, 3, 5]), jitter=jitter, map_name=mp,
                           id_mode=idm, order=order, elem_order=elem_order, holes=holes)
         G.scale_mesh(mesh, rng.choice(SCALE_EXPS))
         # coordinate dtype handed to femio (integers only where the coordinates are integers)
@@ -355,6 +358,62 @@ def plan_extended(ctx):
     return {m: v for m, v in meshes.items() if m in used}, cases
 
 
+def plan_wide(ctx, extended=False):
+    """oracle-only cases at sizes / coordinates where evaluating the Coq model
+    is too expensive or the coordinates are not dyadic: hop count 32 on a mesh
+    with > 100 vertices (walk counts overflow int64 if adjacency powers were
+    integers), decimal length scales, meshes far from the origin."""
+    import sys as _sys
+    rng = ctx.rng
+    big = ctx.tier != 'quick' or extended
+    meshes, cases = {}, []
+
+    def kwm(mode, hop, cv, eff, mm, **k):
+        d = dict(mode=mode, n_hop=hop, consider_volume=cv, use_effective_volume=eff, moment_matrix=mm)
+        d.update(k)
+        return d
+    # (a) hop 32
+    for k, (et, dims) in enumerate([('hex', (5, 5, 4) if not big else (7, 6, 5)),
+                                    ('tet', (4, 4, 3) if not big else (5, 5, 4))]):
+        mesh = G.gen_mesh(rng, et, dims, spacing_max=2, jitter=True, map_name=rng.choice(list(G.MAPS)),
+                          id_mode='large', order='shuffled')
+        G.scale_mesh(mesh, rng.choice([-7, 0, 7]))
+        mesh['exact_vol'] = None
+        mid = f'w{k}'
+        meshes[mid] = mesh
+        for kw in ([kwm('nodal', 32, True, True, True), kwm('nodal', 32, False, True, False)] if et == 'hex'
+                   else [kwm('nodal', 32, True, True, False), kwm('elemental', 32, False, True, False)]):
+            cases.append({'mesh': mid, 'kw': kw, 'kernel': None, 'oracle_only': True, 'with_conv': k == 0,
+                          'est': 0.0})
+    # (b) decimal scales, far from the origin (coordinates are rounded decimals;
+    # the oracle takes the floats femio gets as the exact positions)
+    eps = 2.0 ** -52
+    combos = [(1e-3, 0.0), (0.1, 1e5), (10.0, 1e7), (1e3, 1e5), (1e-3, 1e7), (1.0, 1e6)]
+    for k, (sc, off) in enumerate(combos if big else rng.sample(combos, 3)):
+        et = 'tet' if k % 2 else 'hex'
+        mesh = G.gen_mesh(rng, et, tuple(rng.sample((2, 3, 3), 3)), spacing_max=2, jitter=True,
+                          map_name=rng.choice(list(G.MAPS)), id_mode='sparse', order='shuffled')
+        cell = 4.0 * sc
+        shift = [off * cell * f for f in (1.0, -0.5, 0.25)]
+        mesh['xyz'] = [[c * sc + t for c, t in zip(p, shift)] for p in mesh['xyz']]
+        mesh['descr'] = dict(mesh['descr'], scale=f'decimal {sc:g}', offset_in_cells=off)
+        R = max(abs(c) for p in mesh['xyz'] for c in p) / cell
+        mesh['aff_tol'] = Fr(max(1e-9, 256 * eps * R))
+        mesh['exact_vol'] = None
+        mid = f'y{k}'
+        meshes[mid] = mesh
+        diam2 = max(sum((a - b) ** 2 for a, b in zip(p, mesh['xyz'][0])) for p in mesh['xyz'])
+        for kw in [kwm('nodal', 1, True, True, True), kwm('elemental', 1, True, True, False),
+                   kwm('nodal', 2, False, True, False, kernel='gauss', alpha=2.0 / diam2),
+                   kwm('nodal', 1, True, False, True)]:
+            inc, nb, P = G.neighbourhoods(mesh, kw['mode'], kw['n_hop'])
+            if kw['moment_matrix'] and not well_conditioned(nb, P):
+                kw['moment_matrix'] = False
+            cases.append({'mesh': mid, 'kw': kw, 'kernel': kw.get('kernel'), 'oracle_only': True,
+                          'with_conv': rng.random() < 0.5, 'est': 0.0})
+    return meshes, cases
+
+
 def run_impl(ctx, meshes, jobs, tag='impl'):
     out = ctx.scratch / f'{tag}_out.json'
     keys = ('etype', 'node_ids', 'xyz', 'elem_ids', 'conn', 'blocks', 'k1', 'xyz_dtype')
@@ -369,14 +428,14 @@ def run_impl(ctx, meshes, jobs, tag='impl'):
 
 
 # --------------------------------------------------------------- the oracle
-def oracle_case(mesh, case, mats, conv, P, well):
+def oracle_case(mesh, case, mats, conv, P, well, nb=None):
     """the property itself, evaluated exactly on the floats femio returned.
     returns list of (check, detail)"""
     bad = []
     n = len(P)
     f32 = mesh.get('xyz_dtype') == 'float32'
     t_sum = Fr(1, 2 ** 16) if f32 else Fr(1, 2 ** 40)
-    t_aff = Fr(1, 10 ** 4) if f32 else Fr(1, 10 ** 9)
+    t_aff = max(Fr(1, 10 ** 4) if f32 else Fr(1, 10 ** 9), mesh.get('aff_tol', Fr(0)))
     rows3 = [rows_from_coo(A, n) for A in mats]
     # (1) constants -> 0: every row of every matrix sums to zero (the diagonal
     # is minus the sum of the others), within the rounding of one float sum
@@ -387,6 +446,34 @@ def oracle_case(mesh, case, mats, conv, P, well):
             if abs(s) > t_sum * sa:
                 bad.append(('const-zero', {'axis': a, 'row': i, 'row_sum': float(s),
                                            'abs_sum': float(sa)}))
+                break
+    # (1b) plain rows: the coefficient vector of neighbour j is a positive
+    # multiple of x_j - x_i, and nothing is stored outside the n-hop neighbourhood
+    if nb is not None and not case['kw']['moment_matrix'] and not bad:
+        t_par = max(Fr(1, 2 ** 12) if f32 else Fr(1, 2 ** 30), mesh.get('aff_tol', Fr(0)))
+        for i in range(n):
+            d = [dict(rows3[a][i]) for a in range(3)]
+            sc = max([abs(x) for a in range(3) for x in d[a].values()] + [Fr(0)])
+            if sc == 0:
+                if nb[i]:
+                    bad.append(('offsets', {'row': i, 'empty_row_but_neighbours': len(nb[i])}))
+                    break
+                continue
+            extra = {j for a in range(3) for j, x in d[a].items()
+                     if j != i and abs(x) > t_par * sc} - set(nb[i])
+            if extra:
+                bad.append(('offsets', {'row': i, 'columns_outside_the_neighbourhood': sorted(extra)[:5]}))
+                break
+            for j in nb[i]:
+                cv_ = tuple(d[a].get(j, Fr(0)) for a in range(3))
+                v = G.sub(P[j], P[i])
+                cn, vn = max(abs(x) for x in cv_), max(abs(x) for x in v)
+                x = MOD.cross(cv_, v)
+                if cn == 0 or max(abs(t) for t in x) > t_par * cn * vn or sum(p_ * q_ for p_, q_ in zip(cv_, v)) <= 0:
+                    bad.append(('offsets', {'row': i, 'col': j, 'coefficient': [float(t) for t in cv_],
+                                            'offset': [float(t) for t in v]}))
+                    break
+            if bad:
                 break
     # (2) affine exactness with the moment matrix
     if case['kw']['moment_matrix'] and well:
@@ -552,17 +639,22 @@ def run_sequences(ctx, meshes, seqs, tag):
         sq['job'] = len(jobs)
         jobs.append({'id': len(jobs), 'mesh': sq['mesh'], 'kind': 'sequence',
                      'steps': H.json_steps(sq['steps'])})
+        if sq.get('mesh2'):
+            jobs[-1]['mesh2'] = sq['mesh2']
         for st in sq['steps']:
-            key = (sq['mesh'], H.kw_tuple(st['kw']))
+            if st['kind'] == 'call':
+                continue
+            key = (st.get('mesh_id', sq['mesh']), H.kw_tuple(st['kw']))
             if key not in refs:
                 refs[key] = len(jobs)
-                jobs.append({'id': len(jobs), 'mesh': sq['mesh'], 'kind': 'matrices', 'kw': st['kw']})
+                jobs.append({'id': len(jobs), 'mesh': key[0], 'kind': 'matrices', 'kw': st['kw']})
     res = run_impl(ctx, meshes, jobs, tag=tag)
     out = []
     for sq in seqs:
         r = res[sq['job']]
         steps_out = r.get('steps') or [{'error': r.get('error', 'no output')}] * len(sq['steps'])
-        out.append([(so, res[refs[(sq['mesh'], H.kw_tuple(st['kw']))]])
+        out.append([(so, {} if st['kind'] == 'call' else
+                     res[refs[(st.get('mesh_id', sq['mesh']), H.kw_tuple(st['kw']))]])
                     for st, so in zip(sq['steps'], steps_out)])
     return out
 
@@ -588,6 +680,8 @@ def finish_steps(rng, mesh, mode, steps):
     vertices the function takes data for) and the rows the operator sees"""
     P_all = G.neighbourhoods(mesh, mode, 1)[2]
     for st in steps:
+        if st['kind'] == 'call':
+            continue
         info = step_info(mesh, mode, st['kw'])
         st['P'], st['well'] = info['P'], info['well']
         if st['kind'] == 'conv':
@@ -604,6 +698,8 @@ def eval_sequence(meshes, sq, outs, wells=None):
     """-> list of (step index, check, detail)"""
     bad = []
     for k, (st, (so, ref)) in enumerate(zip(sq['steps'], outs)):
+        if st['kind'] == 'call':
+            continue
         for check, detail in H.check_step(st, so, ref, st['P'], st['well'], rows_from_coo, fr_hex):
             bad.append((k, check, detail))
     return bad
@@ -648,6 +744,20 @@ def history_stream(ctx, meshes, cost_cache, corpus_seqs=()):
                                 scales, second_order=bool(mesh.get('k1')))
         finish_steps(rng, mesh, mode, steps)
         seqs.append({'mesh': mid, 'mode': mode, 'steps': steps, 'P': G.neighbourhoods(mesh, mode, 1)[2]})
+    # several live objects queried alternately (class-level state such as
+    # functools.lru_cache on methods): two sequences interleaved on two objects
+    pairs = [s_ for s_ in seqs if not meshes[s_['mesh']].get('k1') and 'corpus' not in str(meshes[s_['mesh']].get('descr'))]
+    cand_pairs = []
+    for md in ('nodal', 'elemental'):
+        grp = [s_ for s_ in pairs if s_['mode'] == md]
+        cand_pairs += list(zip(grp[0::2], grp[1::2]))
+    for a, b in cand_pairs[:(3 if quick else 10)]:
+        if a['mesh'] == b['mesh']:
+            continue
+        sa = [dict(st, obj=0, mesh_id=a['mesh']) for st in a['steps']]
+        sb = [dict(st, obj=1, mesh_id=b['mesh']) for st in b['steps']]
+        inter = [x for pair in zip(sa, sb) for x in pair]
+        seqs.append({'mesh': a['mesh'], 'mesh2': b['mesh'], 'mode': a['mode'], 'steps': inter, 'P': a['P']})
     if not seqs:
         return [], [], []
     outs = run_sequences(ctx, meshes, seqs, 'hist')
@@ -657,19 +767,24 @@ def history_stream(ctx, meshes, cost_cache, corpus_seqs=()):
         mesh = meshes[sq['mesh']]
         names_seen = {}
         for k, st in enumerate(sq['steps']):
+            if st['kind'] == 'call':
+                ctx.count('history-step:other-call:' + st['name'])
+                continue
             kw = st['kw']
             n_steps += 1
-            key = (st['kind'], kw['mode'], kw['n_hop'], kw.get('kernel'), tuple(sorted(kw)))
+            key = (st.get('obj', 0), st['kind'], kw['mode'], kw['n_hop'], kw.get('kernel'), tuple(sorted(kw)))
             if key in names_seen and names_seen[key] != H.kw_tuple(kw):
                 n_same_names += 1
             names_seen.setdefault(key, H.kw_tuple(kw))
             ctx.count('history-step:' + st['kind'])
             ctx.case(['history', mesh['descr'], mesh['node_ids'][:4], k,
-                      [H.kw_tuple(x['kw']) for x in sq['steps'][:k + 1]]], nontrivial=k > 0)
+                      [x.get('name') or (x.get('obj', 0), H.kw_tuple(x['kw'])) for x in sq['steps'][:k + 1]]],
+                     nontrivial=k > 0)
         bad = eval_sequence(meshes, sq, o, wells)
         for k, check, detail in bad[:1]:       # the first failing step of a sequence
             c = {'mesh': sq['mesh'], 'kw': sq['steps'][k]['kw'], 'n': len(sq['P']),
-                 'sequence': sq, 'failing_step': k, 'seq_id': id(sq)}
+                 'sequence': sq, 'failing_step': k, 'seq_id': id(sq),
+                 'mesh2_obj': meshes.get(sq.get('mesh2')) if sq.get('mesh2') else None}
             failures.append([len(sq['P']) * 100 + k, 'impl-violation', mesh, c,
                              {'convenience-history': 'convenience output = matrices of a fresh object applied by hand, at every step',
                               'affine-exact-history': 'gradient of g.x+c is g at every vertex, at every step',
@@ -681,17 +796,21 @@ def history_stream(ctx, meshes, cost_cache, corpus_seqs=()):
                               }.get(check, 'C15_convenience_equals_matrices') + ' / same-object stream', check])
         # correspondence with the Coq model of the convenience function (kernel None, cheap)
         for k, (st, (so, ref)) in enumerate(zip(sq['steps'], o)):
+            if st['kind'] != 'conv':
+                continue
             kw = st['kw']
-            if st['kind'] != 'conv' or kw.get('kernel') or 'error' in so:
+            smid = st.get('mesh_id', sq['mesh'])
+            smesh = meshes[smid]
+            if kw.get('kernel') or 'error' in so:
                 continue
             if kw['moment_matrix'] and not st['well']:
                 continue
-            if kw['consider_volume'] and mesh.get('exact_vol') is None:
+            if kw['consider_volume'] and smesh.get('exact_vol') is None:
                 continue
-            est = cost_estimate(eff_mesh(mesh, kw), kw, cost_cache)
-            if est > 2.0:
+            est = cost_estimate(eff_mesh(smesh, kw), kw, cost_cache)
+            if est > (1.2 if quick else 2.0) or (quick and rng.random() < 0.4):
                 continue
-            hc = {'id': 100000 + len(hcases), 'mesh': sq['mesh'], 'kw': kw, 'data': st['data'],
+            hc = {'id': 100000 + len(hcases), 'mesh': smid, 'kw': kw, 'data': st['data'],
                   'n': len(st['P']), 'est': 4 * est, 'sequence': sq, 'failing_step': k, 'history': True,
                   'seq_id': id(sq)}
             hcases.append(hc)
@@ -709,6 +828,7 @@ def history_stream(ctx, meshes, cost_cache, corpus_seqs=()):
             sq, k = f[3]['sequence'], f[3]['failing_step']
             for pre in [[]] + [[j] for j in range(k - 1, -1, -1)]:
                 cand.append((f, {'mesh': sq['mesh'], 'mode': sq['mode'], 'P': sq['P'],
+                                 'mesh2': sq.get('mesh2'),
                                  'steps': [sq['steps'][j] for j in pre] + [sq['steps'][k]]}))
         outs2 = run_sequences(ctx, meshes, [c for _, c in cand], 'hist_shrink')
         done = set()
@@ -1002,6 +1122,8 @@ def prepare_cases(ctx, meshes, cases):
                 mesh['exact_vol'] = exact_volumes(mesh)
             ex = mesh['exact_vol']
             rel = Fr(1, 2 ** 45) if mesh['etype'] in ('tet', 'tet2') else Fr(1, 2 ** 20)
+            if mesh.get('xyz_dtype') == 'float32':
+                rel = Fr(1, 2 ** 18)
             if ex is not None and len(ex) == len(impl) and \
                     all(abs(a - b) <= rel * abs(a) for a, b in zip(ex, impl)):
                 vols[j['mid']] = ex
@@ -1071,6 +1193,10 @@ def replay_case(mesh, c, vols=None):
         k = c['failing_step']
         out['data'] = None
         out['same_object_sequence'] = H.json_steps(c['sequence']['steps'][:k + 1])
+        if c['sequence'].get('mesh2') and c.get('mesh2_obj') is not None:
+            m2 = c['mesh2_obj']
+            out['mesh2'] = {kk: m2[kk] for kk in ('etype', 'node_ids', 'xyz', 'elem_ids', 'conn', 'blocks', 'k1',
+                                                  'scale_exp', 'xyz_dtype') if kk in m2}
         out['failing_step'] = k
         out['mode'] = c['sequence']['mode']
         if c.get('shrunk_from'):
@@ -1119,6 +1245,15 @@ def main(ctx):
         'margin det(M0) >= (tr(M0)/3)^3/50 (unweighted normalised moment matrix, exact)',
     ]
     ctx.sources = source_hashes()
+    # exact-body tie: when a modelled function's source differs from the
+    # baseline the correspondence ran against, say so and widen the search
+    bl = lib.VERIF / 'corpus' / PID / 'source_baseline.json'
+    if bl.exists():
+        base = json.loads(bl.read_text())
+        changed = sorted(k for k in set(base) | set(ctx.sources) if base.get(k) != ctx.sources.get(k))
+        if changed:
+            ctx.notes['modelled_source_changed'] = changed
+            ctx.log('modelled source differs from the baseline:', changed, '-> extended search sizes')
     # 1. proofs
     proof_ok, log = ctx.build_props('C15/Props.v')
     if not proof_ok:
@@ -1131,6 +1266,8 @@ def main(ctx):
     if corpus_dir.exists():
         for f in sorted(corpus_dir.glob('*.json')):
             rp = json.loads(f.read_text())
+            if not isinstance(rp, dict) or 'mesh' not in rp:
+                continue              # e.g. source_baseline.json
             mid = f'c{n_corpus}'
             m = dict(rp['mesh'])
             m['descr'] = {'corpus': f.name, 'etype': m['etype']}
@@ -1167,6 +1304,10 @@ def main(ctx):
     xm, xc = plan_extended(ctx)
     meshes.update(xm)
     cases += xc
+    wm, wc = plan_wide(ctx, extended=bool(ctx.notes.get('modelled_source_changed')))
+    meshes.update(wm)
+    cases += wc
+    ctx.notes['wide_oracle_only_cases'] = len(wc)
     ctx.notes['extended_stream_cases'] = len(xc)
     ctx.notes['corpus_cases'] = n_corpus
     # small malformed stream (kept apart): an element refers to a node id that
@@ -1250,18 +1391,20 @@ def main(ctx):
                          'first_entries_axis0': [[rr, cc, float.fromhex(h)] for rr, cc, h in
                                                  list(zip(mats[0]['row'], mats[0]['col'], mats[0]['data']))[:4]]})
         # oracle (all kernels)
-        bad = oracle_case(mesh, c, mats, rc, P, well)
+        bad = oracle_case(mesh, c, mats, rc, P, well, nb)
         n_oracle += 1
         for check, detail in bad:
             th = {'const-zero': 'C15_grad_const_zero', 'affine-exact': 'C15_moment_exact',
+                  'offsets': 'model (coef_plain: coefficients are positive multiples of the offsets)',
                   'convenience': 'C15_convenience_equals_matrices'}[check]
             failures.append((c['n'], 'impl-violation', mesh, c,
                              {'const-zero': 'every row of every matrix sums to zero',
+                              'offsets': 'plain rows: coefficient of neighbour j is a positive multiple of x_j - x_i',
                               'affine-exact': 'gradient of g.x+c is g at every vertex',
                               'convenience': 'convenience output = matrices applied by hand'}[check],
                              detail, th + ' / oracle on implementation', check))
         # correspondence (kernel None only)
-        if kw.get('kernel') is None:
+        if kw.get('kernel') is None and not c.get('oracle_only'):
             rows3 = [rows_from_coo(A, c['n']) for A in mats]
             batch_items.append((c['id'], c, rows3, None if c.get('conv_no_coq') else rc))
     # 3b. same-object stream (several calls on ONE FEMData)
@@ -1404,13 +1547,27 @@ def replay(path):
             if st.get('data') is not None:
                 st['data'] = [[Fr(x) for x in r] for r in st['data']]
             steps.append(st)
-        mode = case.get('mode') or steps[-1]['kw']['mode']
-        finish_steps(ctx.rng, mesh, mode, steps)
+        mode = case.get('mode') or [st for st in steps if st['kind'] != 'call'][-1]['kw']['mode']
         sq = {'mesh': 'r0', 'mode': mode, 'steps': steps, 'P': G.neighbourhoods(mesh, mode, 1)[2]}
+        if case.get('mesh2'):
+            m2 = dict(case['mesh2'])
+            m2['descr'] = {'replay': 'second object', 'etype': m2['etype']}
+            meshes['r1'] = m2
+            sq['mesh2'] = 'r1'
+            for st in steps:
+                st['mesh_id'] = 'r1' if st.get('obj') else 'r0'
+            finish_steps(ctx.rng, mesh, mode, [st for st in steps if not st.get('obj')])
+            finish_steps(ctx.rng, m2, mode, [st for st in steps if st.get('obj')])
+        else:
+            finish_steps(ctx.rng, mesh, mode, steps)
         outs = run_sequences(ctx, meshes, [sq], 'replay_hist')[0]
         bad = eval_sequence(meshes, sq, outs)
         for k, st in enumerate(steps):
-            print(f'step {k}: {st["kind"]} {kw_key(st["kw"])} alpha={st["kw"].get("alpha")}:',
+            if st['kind'] == 'call':
+                print(f'step {k}: other public call {st["name"]}')
+                continue
+            print(f'step {k} (object {st.get("obj", 0)}): {st["kind"]} {kw_key(st["kw"])} '
+                  f'alpha={st["kw"].get("alpha")}:',
                   [b[1:] for b in bad if b[0] == k] or 'agrees with a fresh object')
         print('property', 'VIOLATED' if bad else 'holds', 'on this call sequence')
         return 1 if bad else 0
